@@ -632,6 +632,304 @@ Proof.
   injection He as E0 E1. pair_eq; lra.
 Qed.
 
+(* ================= widened model: curved detectors, from_to, constructors ================= *)
+
+(* ---------------------------------------------- curved detector surfaces *)
+Lemma circ_detector_spec (ax : V2) (r : R) (u : R) (cs : R * R) :
+  dot2 ax ax = 1 -> on_circle cs ->
+  let d := Circ ax r in let p := (u, cs) in
+  let c := circ_transl ax r in
+  surf2 d (u, (1, 0)) = (0, 0) /\
+  dot2 (sub2 (surf2 d p) c) (sub2 (surf2 d p) c) = r * r /\
+  dot2 (deriv2 d p) (sub2 (surf2 d p) c) = 0 /\
+  dot2 (deriv2 d p) (deriv2 d p) = r * r /\
+  deriv2 d (u, (1, 0)) = scal2 r ax.
+Proof.
+  d2 ax; destruct cs as [cu su]; unfold on_circle; cbn [fst snd]. intros Ha Hc. cbn zeta.
+  unfold surf2, deriv2, circ_transl, circ_rot. unf.
+  repeat split; try (pair_eq; ring); nsatz.
+Qed.
+
+Lemma cyl_detector_spec (a0 a1 : V3) (r : R) (m : M3) (u v : R) (cu cv : R * R) :
+  mm3 (tr3 m) m = id3 -> on_circle cu ->
+  let d := Cyl a0 a1 r m in let p := (u, v, cu, cv) in
+  let c := curved_transl r m in
+  let w := sub3 (surf3 d p) c in
+  let zax := mv3 m (0, 0, 1) in
+  surf3 d (u, 0, (1, 0), cv) = (0, 0, 0) /\
+  dot3 w zax = v /\
+  dot3 w w = r * r + v * v /\
+  dot3 (fst (deriv3 d p)) w = 0 /\
+  dot3 (fst (deriv3 d p)) (snd (deriv3 d p)) = 0 /\
+  dot3 (snd (deriv3 d p)) (snd (deriv3 d p)) = 1 /\
+  dot3 (fst (deriv3 d p)) (fst (deriv3 d p)) = r * r.
+Proof.
+  destruct cu as [c s], cv as [c2 s2]; unfold on_circle; cbn [fst snd]. intros Hm Hc. cbn zeta.
+  unfold surf3, deriv3, curved_transl. cbn [fst snd].
+  assert (Hw : sub3 (add3 (mv3 m (r * c, r * - s, v)) (scal3 (- r) (mv3 m (1, 0, 0)))) (scal3 (- r) (mv3 m (1, 0, 0)))
+               = mv3 m (r * c, r * - s, v)).
+  { destruct (mv3 m (r * c, r * - s, v)) as [[x0 x1] x2], (mv3 m (1, 0, 0)) as [[y0 y1] y2]. unf. pair_eq; ring. }
+  numR. rewrite Hw. rewrite !(rot3_isometry m _ _ Hm).
+  split.
+  - rewrite <- (mv3_scal m). rewrite <- mv3_add.
+    assert (E : add3 (r * 1, r * - 0, 0) (scal3 (- r) (1, 0, 0)) = (0, 0, 0)) by (unf; pair_eq; ring).
+    rewrite E. destruct m as [[[[a b] c'] [[d e] f]] [[g h] i]]. unf. pair_eq; ring.
+  - clear Hm Hw. unf. repeat split; try ring; nsatz.
+Qed.
+
+Lemma sph_detector_spec (a0 a1 : V3) (r : R) (m : M3) (u v : R) (cu cv : R * R) :
+  mm3 (tr3 m) m = id3 -> on_circle cu -> on_circle cv ->
+  let d := Sph a0 a1 r m in let p := (u, v, cu, cv) in
+  let c := curved_transl r m in
+  let w := sub3 (surf3 d p) c in
+  surf3 d (u, v, (1, 0), (1, 0)) = (0, 0, 0) /\
+  dot3 w w = r * r /\
+  dot3 (fst (deriv3 d p)) w = 0 /\ dot3 (snd (deriv3 d p)) w = 0 /\
+  dot3 (fst (deriv3 d p)) (snd (deriv3 d p)) = 0 /\
+  dot3 (snd (deriv3 d p)) (snd (deriv3 d p)) = r * r /\
+  dot3 (fst (deriv3 d p)) (fst (deriv3 d p)) = r * r * (fst cv * fst cv).
+Proof.
+  destruct cu as [c s], cv as [c2 s2]; unfold on_circle; cbn [fst snd]. intros Hm Hc Hc2. cbn zeta.
+  unfold surf3, deriv3, curved_transl. cbn [fst snd]. numR.
+  set (q := scal3 r (c * c2, - s * c2, s2)).
+  assert (Hw : sub3 (add3 (mv3 m q) (scal3 (- r) (mv3 m (1, 0, 0)))) (scal3 (- r) (mv3 m (1, 0, 0))) = mv3 m q).
+  { destruct (mv3 m q) as [[x0 x1] x2], (mv3 m (1, 0, 0)) as [[y0 y1] y2]. unf. pair_eq; ring. }
+  numR. rewrite Hw. rewrite !(rot3_isometry m _ _ Hm).
+  split.
+  - rewrite <- (mv3_scal m). rewrite <- mv3_add.
+    assert (E : add3 (scal3 r (1 * 1, - 0 * 1, 0)) (scal3 (- r) (1, 0, 0)) = (0, 0, 0)) by (unf; pair_eq; ring).
+    rewrite E. destruct m as [[[[a b] c'] [[d e] f]] [[g h] i]]. unf. pair_eq; ring.
+  - clear Hm Hw. unfold q. unf.
+    assert (K : forall L Rr A B : R, L - Rr = A * (c * c + s * s - 1) + B * (c2 * c2 + s2 * s2 - 1) -> L = Rr).
+    { intros L Rr A B HK. rewrite Hc, Hc2 in HK. lra. }
+    split; [apply (K _ _ (r * r * (c2 * c2)) (r * r)); ring|].
+    split; [ring|].
+    split; [apply (K _ _ (- (r * r * c2 * s2)) 0); ring|].
+    split; [ring|].
+    split; [apply (K _ _ (r * r * (s2 * s2)) (r * r)); ring|].
+    apply (K _ _ (r * r * (c2 * c2)) 0); ring.
+Qed.
+
+(* ---------------------------------------- rotation_matrix_from_to, transform_system *)
+
+Lemma sgn_cases (x : R) : (sgn x = 1 /\ 0 < x) \/ (sgn x = -1 /\ x < 0) \/ (sgn x = 0 /\ x = 0).
+Proof.
+  unfold sgn. numR. destruct (Rltb_spec 0 x); [left; split; [reflexivity|assumption]|].
+  destruct (Rltb_spec x 0); [right; left; split; [reflexivity|assumption]|].
+  right; right; split; [reflexivity|lra].
+Qed.
+
+Lemma signed_acos_on_circle (sg c : R) : c * c <= 1 -> on_circle (signed_acos sqrt sg c).
+Proof.
+  intros Hc. unfold signed_acos, on_circle. numR.
+  destruct (Reqb_spec (sgn sg) 0) as [H0|H0]; cbn [fst snd]; [ring|].
+  assert (Hs : sqrt (1 - c * c) * sqrt (1 - c * c) = 1 - c * c) by (apply sqrt_sqrt; lra).
+  destruct (sgn_cases sg) as [[E _]|[[E _]|[E _]]]; rewrite E in *; try contradiction; nra.
+Qed.
+
+Lemma unit2_dot_le (f t : V2) : dot2 f f = 1 -> dot2 t t = 1 -> dot2 f t * dot2 f t <= 1.
+Proof.
+  d2 f; d2 t. unf. intros Hf Ht.
+  assert (E : (f0 * t0 + f1 * t1) * (f0 * t0 + f1 * t1) + (f0 * t1 - f1 * t0) * (f0 * t1 - f1 * t0)
+              = (f0 * f0 + f1 * f1) * (t0 * t0 + t1 * t1)) by ring.
+  rewrite Hf, Ht in E. pose proof (Rle_0_sqr (f0 * t1 - f1 * t0)) as Hs. unfold Rsqr in Hs. lra.
+Qed.
+
+(* rotation_matrix_from_to in the plane returns a rotation matrix whenever it returns *)
+Lemma from_to2_rot (fv tv : V2) (m : M2) : from_to2 sqrt fv tv = Some m -> is_rot2 m.
+Proof.
+  unfold from_to2. numR.
+  destruct (Rltb_spec (norm2 sqrt fv) (tiny)) as [Hf|Hf]; [intros Hx; discriminate Hx|].
+  destruct (Rltb_spec (norm2 sqrt tv) (tiny)) as [Ht|Ht]; [intros Hx; discriminate Hx|].
+  cbn [orb]. intros [= <-]. apply euler2_rot.
+  assert (Htiny : 0 < @tiny R _) by (unfold tiny, of_Q; cbn [Qnum Qden]; numR; lra).
+  assert (Hnf : norm2 sqrt fv <> 0) by lra. assert (Hnt : norm2 sqrt tv <> 0) by lra.
+  pose proof (normalize2_unit fv Hnf) as Uf. pose proof (normalize2_unit tv Hnt) as Ut.
+  set (f := sdiv2 fv (norm2 sqrt fv)) in *. set (t := sdiv2 tv (norm2 sqrt tv)) in *.
+  destruct (Reqb_spec (dot2 f t) 0).
+  - destruct (Rltb_spec 0 (dot2 (let '(f0, f1) := f in (- f1, f0)) t)); unfold on_circle; cbn [fst snd]; ring.
+  - destruct (eq2 t (neg2 f)); [unfold on_circle; cbn [fst snd]; ring|].
+    apply signed_acos_on_circle, unit2_dot_le; assumption.
+Qed.
+
+Lemma perp3_unit (v : V3) : dot3 (perp3 sqrt v) (perp3 sqrt v) = 1.
+Proof.
+  d3 v. unfold perp3. numR.
+  destruct (Reqb_spec v0 0) as [H0|H0]; destruct (Reqb_spec v1 0) as [H1|H1]; cbn [negb orb];
+    apply normalize3_unit; intros Hn; apply norm3_zero_iff in Hn; inversion Hn; lra.
+Qed.
+
+Lemma unit3_dot_le (f t : V3) : dot3 f f = 1 -> dot3 t t = 1 -> dot3 f t * dot3 f t <= 1.
+Proof.
+  intros Hf Ht.
+  assert (E : dot3 f t * dot3 f t + dot3 (cross3 f t) (cross3 f t) = dot3 f f * dot3 t t)
+    by (d3 f; d3 t; unf; ring).
+  rewrite Hf, Ht in E. pose proof (dot3_nonneg (cross3 f t)). lra.
+Qed.
+
+(* rotation_matrix_from_to in space returns a rotation matrix whenever it returns *)
+Lemma from_to3_rot (fv tv : V3) (m : M3) : from_to3 sqrt fv tv = Some m -> is_rot3 m.
+Proof.
+  unfold from_to3. numR.
+  destruct (Rltb_spec (norm3 sqrt fv) (tiny)) as [Hf|Hf]; [intros Hx; discriminate Hx|].
+  destruct (Rltb_spec (norm3 sqrt tv) (tiny)) as [Ht|Ht]; [intros Hx; discriminate Hx|].
+  cbn [orb].
+  assert (Htiny : 0 < @tiny R _) by (unfold tiny, of_Q; cbn [Qnum Qden]; numR; lra).
+  assert (Hnf : norm3 sqrt fv <> 0) by lra. assert (Hnt : norm3 sqrt tv <> 0) by lra.
+  pose proof (normalize3_unit fv Hnf) as Uf. pose proof (normalize3_unit tv Hnt) as Ut.
+  set (f := sdiv3 fv (norm3 sqrt fv)) in *. set (t := sdiv3 tv (norm3 sqrt tv)) in *.
+  destruct (Rltb_spec (norm3 sqrt (cross3 f t)) tiny) as [Hn|Hn].
+  - intros [= <-]. apply axis_rot_rot; [apply perp3_unit|].
+    destruct (Rltb_spec 0 (dot3 f t)); unfold on_circle; cbn [fst snd]; ring.
+  - intros [= <-]. apply axis_rot_rot.
+    + apply normalize3_unit. lra.
+    + apply signed_acos_on_circle, unit3_dot_le; assumption.
+Qed.
+
+(* transform_system's matrix (no explicit matrix given) is a rotation *)
+Lemma id2_rot : is_rot2 id2.
+Proof. unfold is_rot2. unf. split; [pair_eq; ring | ring]. Qed.
+Lemma id3_rot : is_rot3 id3.
+Proof. unfold is_rot3. unf. split; [pair_eq; ring | ring]. Qed.
+Lemma tsys2_rot (pv pd : V2) (m : M2) : tsys2 sqrt pv pd = Some m -> is_rot2 m.
+Proof.
+  unfold tsys2.
+  destruct (_ && _); [intros Hx; discriminate Hx|].
+  destruct (_ && _); [intros Hx; discriminate Hx|].
+  destruct (allclose2 _ _); [intros [= <-]; apply id2_rot | apply from_to2_rot].
+Qed.
+Lemma tsys3_rot (pv pd : V3) (m : M3) : tsys3 sqrt pv pd = Some m -> is_rot3 m.
+Proof.
+  unfold tsys3.
+  destruct (_ && _); [intros Hx; discriminate Hx|].
+  destruct (_ && _); [intros Hx; discriminate Hx|].
+  destruct (allclose3 _ _); [intros [= <-]; apply id3_rot | apply from_to3_rot].
+Qed.
+
+(* ------------------------------------------------------ constructors *)
+
+Definition orth3 (m : M3) : Prop := mm3 (tr3 m) m = id3.
+Lemma orth3_mm (a b : M3) : orth3 a -> orth3 b -> orth3 (mm3 a b).
+Proof.
+  unfold orth3. intros Ha Hb.
+  assert (E : mm3 (tr3 (mm3 a b)) (mm3 a b) = mm3 (tr3 b) (mm3 (mm3 (tr3 a) a) b)).
+  { destruct a as [[[[a1 a2] a3] [[a4 a5] a6]] [[a7 a8] a9]], b as [[[[b1 b2] b3] [[b4 b5] b6]] [[b7 b8] b9]].
+    unf. pair_eq; ring. }
+  rewrite E, Ha.
+  assert (E2 : mm3 id3 b = b).
+  { destruct b as [[[[b1 b2] b3] [[b4 b5] b6]] [[b7 b8] b9]]. unf. pair_eq; ring. }
+  rewrite E2. exact Hb.
+Qed.
+
+Lemma curved_rot_orth (a0 a1 : V3) (m : M3) : curved_rot sqrt a0 a1 = Some m -> orth3 m.
+Proof.
+  unfold curved_rot. destruct (from_to3 sqrt _ a0) as [r1|] eqn:E1; [|intros Hx; discriminate Hx].
+  destruct (from_to3 sqrt _ a1) as [r2|] eqn:E2; [|intros Hx; discriminate Hx].
+  intros [= <-]. apply orth3_mm; [apply (from_to3_rot _ _ _ E2) | apply (from_to3_rot _ _ _ E1)].
+Qed.
+
+(* what the geometry constructors establish *)
+Definition wf_det3' (d : det3d) : Prop :=
+  match d with
+  | Flat2 a0 a1 => dot3 a0 a0 = 1 /\ dot3 a1 a1 = 1 /\ cross3 a0 a1 <> (0, 0, 0)
+  | Cyl a0 a1 r m | Sph a0 a1 r m => dot3 a0 a0 = 1 /\ dot3 a1 a1 = 1 /\ 0 < r /\ mm3 (tr3 m) m = id3
+  end.
+
+Lemma mk_flat2_wf' (a0 a1 : V3) (d : det3d) : mk_flat2 sqrt a0 a1 = Some d -> wf_det3' d.
+Proof.
+  intros Hd. pose proof (mk_flat2_wf _ _ _ Hd) as Hw. unfold mk_flat2 in Hd.
+  destruct (_ =? _)%num; [discriminate Hd|]. injection Hd as <-. exact Hw.
+Qed.
+
+Lemma mk_curved_wf (sph : bool) (a0 a1 : V3) (r : R) (d : det3d) :
+  mk_curved sqrt sph a0 a1 r = Some d -> wf_det3' d.
+Proof.
+  unfold mk_curved. numR.
+  destruct (Reqb_spec (norm3 sqrt (cross3 a0 a1)) 0) as [Hn|Hn]; [intros Hx; discriminate Hx|].
+  destruct (Reqb_spec (dot3 a0 a1) 0) as [Hp|Hp]; cbn [negb]; [|intros Hx; discriminate Hx].
+  destruct (Rleb_spec r 0) as [Hr|Hr]; [intros Hx; discriminate Hx|].
+  destruct (curved_rot sqrt a0 a1) as [m|] eqn:Em; [|intros Hx; discriminate Hx].
+  assert (Hc : cross3 a0 a1 <> (0, 0, 0)) by (intros Hc; apply Hn, norm3_zero_iff, Hc).
+  assert (H0 : norm3 sqrt a0 <> 0).
+  { intros H0. apply norm3_zero_iff in H0. subst a0. apply Hc, cross3_zero_l. }
+  assert (H1 : norm3 sqrt a1 <> 0).
+  { intros H1. apply norm3_zero_iff in H1. subst a1. apply Hc, cross3_zero_r. }
+  intros [= <-]. destruct sph; cbn; repeat split; try (apply normalize3_unit; assumption); try lra;
+    apply (curved_rot_orth _ _ _ Em).
+Qed.
+
+Lemma mk_par2d_wf (pos : V2) (ax : option V2) (tr : V2) (g : par2d) :
+  mk_par2d sqrt pos ax tr = Some g -> wf_det2 (p2_det g) /\ exists a, p2_det g = Flat1 a.
+Proof.
+  unfold mk_par2d, obind. destruct (tsys2 sqrt pos _) as [m|]; [|intros Hx; discriminate Hx].
+  destruct (mk_flat1 sqrt _) as [d|] eqn:Ed; [|intros Hx; discriminate Hx]. intros [= <-]. cbn.
+  split; [apply (mk_flat1_wf _ _ Ed)|]. unfold mk_flat1 in Ed. destruct (_ =? _)%num; [discriminate Ed|].
+  injection Ed as <-. eexists; reflexivity.
+Qed.
+
+Lemma mk_par3a_wf (axis : V3) (pos : option V3) (axes : option (V3 * V3)) (tr : V3) (g : par3a) :
+  mk_par3a sqrt axis pos axes tr = Some g ->
+  dot3 (pa_axis g) (pa_axis g) = 1 /\ wf_det3' (pa_det g) /\ pa_tr g = tr.
+Proof.
+  unfold mk_par3a, obind. destruct (tsys3 sqrt axis _) as [m|]; [|intros Hx; discriminate Hx].
+  destruct (match axes with Some a => a | None => _ end) as [a0 a1].
+  destruct (unit_axis sqrt axis) as [ua|] eqn:Eu; [|intros Hx; discriminate Hx].
+  destruct (mk_flat2 sqrt a0 a1) as [d|] eqn:Ed; [|intros Hx; discriminate Hx].
+  intros [= <-]. cbn. repeat split; [apply (unit_axis_some _ _ Eu) | apply (mk_flat2_wf' _ _ _ Ed)].
+Qed.
+
+Lemma mk_par3d_wf (pos : V3) (axes : option (V3 * V3)) (tr : V3) (g : par3d) :
+  mk_par3d sqrt pos axes tr = Some g -> wf_det3' (p3_det g) /\ p3_tr g = tr /\ p3_pos g = add3 pos tr.
+Proof.
+  unfold mk_par3d, obind. destruct (tsys3 sqrt pos _) as [m|]; [|intros Hx; discriminate Hx].
+  destruct (match axes with Some a => a | None => _ end) as [a0 a1].
+  destruct (mk_flat2 sqrt a0 a1) as [d|] eqn:Ed; [|intros Hx; discriminate Hx].
+  intros [= <-]. cbn. repeat split. apply (mk_flat2_wf' _ _ _ Ed).
+Qed.
+
+Lemma mk_fan_wf (rs rd : R) (curv : option R) (s2d : V2) (axis : option V2) (tr : V2) (g : fan) :
+  mk_fan sqrt rs rd curv s2d axis tr = Some g ->
+  dot2 (f_s2d g) (f_s2d g) = 1 /\ wf_det2 (f_det g) /\ 0 <= f_rs g /\ 0 <= f_rd g /\
+  ~ (f_rs g = 0 /\ f_rd g = 0) /\ f_tr g = tr.
+Proof.
+  unfold mk_fan, obind. destruct (tsys2 sqrt s2d _) as [m|]; [|intros Hx; discriminate Hx].
+  destruct (iszero2 s2d) eqn:Ez; [intros Hx; discriminate Hx|].
+  destruct (match curv with None => _ | Some r => _ end) as [d|] eqn:Ed; [|intros Hx; discriminate Hx].
+  numR. destruct (Rltb_spec rs 0) as [H1|H1]; [intros Hx; discriminate Hx|].
+  destruct (Rltb_spec rd 0) as [H2|H2]; [intros Hx; discriminate Hx|].
+  destruct (Reqb_spec rs 0) as [H3|H3]; destruct (Reqb_spec rd 0) as [H4|H4]; cbn [andb];
+    try (intros Hx; discriminate Hx).
+  all: intros [= <-]; cbn.
+  all: assert (Hn : norm2 sqrt s2d <> 0)
+    by (intros Hn; apply norm2_zero_iff in Hn; subst s2d; unfold iszero2, eq2 in Ez; numR;
+        destruct (Reqb_spec 0 0); [discriminate Ez | lra]).
+  all: repeat split; try lra; try (apply normalize2_unit, Hn); try (intros [A B]; lra).
+  all: destruct curv; [apply (mk_circ_wf _ _ _ Ed) | apply (mk_flat1_wf _ _ Ed)].
+Qed.
+
+Lemma mk_cone_wf (rs rd : R) (curv : curv3) (pitch off : R) (axis : V3) (s2d : option V3)
+    (axes : option (V3 * V3)) (tr : V3) (g : cone) :
+  mk_cone sqrt rs rd curv pitch off axis s2d axes tr = Some g ->
+  dot3 (c_axis g) (c_axis g) = 1 /\ dot3 (c_s2d g) (c_s2d g) = 1 /\ wf_det3' (c_det g) /\
+  0 <= c_rs g /\ 0 <= c_rd g /\ ~ (c_rs g = 0 /\ c_rd g = 0) /\
+  c_tr g = tr /\ c_pitch g = pitch /\ c_off g = off.
+Proof.
+  unfold mk_cone, obind. destruct (tsys3 sqrt axis _) as [m|]; [|intros Hx; discriminate Hx].
+  destruct (match axes with Some a => a | None => _ end) as [a0 a1].
+  set (sd := match s2d with Some p => p | None => _ end).
+  numR. destruct (Reqb_spec (norm3 sqrt sd) 0) as [Hn|Hn]; [intros Hx; discriminate Hx|].
+  destruct (unit_axis sqrt axis) as [ua|] eqn:Eu; [|intros Hx; discriminate Hx].
+  destruct (match curv with CFlat => _ | CCyl r => _ | CSph r => _ end) as [d|] eqn:Ed; [|intros Hx; discriminate Hx].
+  destruct (Rltb_spec rs 0) as [H1|H1]; [intros Hx; discriminate Hx|].
+  destruct (Rltb_spec rd 0) as [H2|H2]; [intros Hx; discriminate Hx|].
+  destruct (Reqb_spec rs 0) as [H3|H3]; destruct (Reqb_spec rd 0) as [H4|H4]; cbn [andb];
+    try (intros Hx; discriminate Hx).
+  all: intros [= <-]; cbn.
+  all: repeat split; try lra; try (apply (unit_axis_some _ _ Eu)); try (apply normalize3_unit, Hn);
+    try (intros [A B]; lra).
+  all: destruct curv; [apply (mk_flat2_wf' _ _ _ Ed) | apply (mk_curved_wf _ _ _ _ _ Ed) | apply (mk_curved_wf _ _ _ _ _ Ed)].
+Qed.
+
 (* ---- statements assembled for Props.v ---- *)
 Lemma axis_rotation_is_rotation_l : forall (ax : R * R * R) (a : R * R),
   dot3 ax ax = 1 -> on_circle a ->
@@ -737,3 +1035,32 @@ Lemma detector_constructors_wellformed_l :
   (forall axis r d, mk_circ sqrt axis r = Some d -> wf_det2 d) /\
   (forall a0 a1 d, mk_flat2 sqrt a0 a1 = Some d -> wf_det3 d).
 Proof. repeat split; [exact mk_flat1_wf | exact mk_circ_wf | exact mk_flat2_wf]. Qed.
+
+Lemma from_to_is_rotation_l :
+  (forall fv tv m, from_to2 sqrt fv tv = Some m -> mm2 (tr2 m) m = id2 /\ det2 m = 1) /\
+  (forall fv tv m, from_to3 sqrt fv tv = Some m -> mm3 (tr3 m) m = id3 /\ det3 m = 1) /\
+  (forall pv pd m, tsys2 sqrt pv pd = Some m -> mm2 (tr2 m) m = id2 /\ det2 m = 1) /\
+  (forall pv pd m, tsys3 sqrt pv pd = Some m -> mm3 (tr3 m) m = id3 /\ det3 m = 1).
+Proof.
+  split; [exact from_to2_rot|]. split; [exact from_to3_rot|]. split; [exact tsys2_rot | exact tsys3_rot].
+Qed.
+
+Lemma constructed_wf_l :
+  (forall pos ax tr g, mk_par2d sqrt pos ax tr = Some g ->
+     wf_det2 (p2_det g) /\ exists a, p2_det g = Flat1 a) /\
+  (forall pos axes tr g, mk_par3d sqrt pos axes tr = Some g ->
+     wf_det3' (p3_det g) /\ p3_tr g = tr /\ p3_pos g = add3 pos tr) /\
+  (forall axis pos axes tr g, mk_par3a sqrt axis pos axes tr = Some g ->
+     dot3 (pa_axis g) (pa_axis g) = 1 /\ wf_det3' (pa_det g) /\ pa_tr g = tr) /\
+  (forall rs rd curv s2d axis tr g, mk_fan sqrt rs rd curv s2d axis tr = Some g ->
+     dot2 (f_s2d g) (f_s2d g) = 1 /\ wf_det2 (f_det g) /\ 0 <= f_rs g /\ 0 <= f_rd g /\
+     ~ (f_rs g = 0 /\ f_rd g = 0) /\ f_tr g = tr) /\
+  (forall rs rd curv pitch off axis s2d axes tr g,
+     mk_cone sqrt rs rd curv pitch off axis s2d axes tr = Some g ->
+     dot3 (c_axis g) (c_axis g) = 1 /\ dot3 (c_s2d g) (c_s2d g) = 1 /\ wf_det3' (c_det g) /\
+     0 <= c_rs g /\ 0 <= c_rd g /\ ~ (c_rs g = 0 /\ c_rd g = 0) /\
+     c_tr g = tr /\ c_pitch g = pitch /\ c_off g = off).
+Proof.
+  split; [exact mk_par2d_wf|]. split; [exact mk_par3d_wf|]. split; [exact mk_par3a_wf|].
+  split; [exact mk_fan_wf | exact mk_cone_wf].
+Qed.
